@@ -1,9 +1,7 @@
 """C01 array data round trip (kernel): appendData.  DESIGN.md section 7."""
 from props.nd_units import ND_UNITS, ND_TRUST, member, UNW, rank_cases
-UNITS = {k: ND_UNITS[k] for k in ('NDSize_size', 'NDSize_at', 'NDSize_allocate', 'NDSize_copy_ctor')}
+UNITS = {k: ND_UNITS[k] for k in ('NDSize_size', 'NDSize_at', 'NDSize_allocate', 'NDSize_copy_ctor', 'NDSize_fill', 'NDSize_ctor_fill')}
 UNITS.update({
-    'NDSize_fill': member(r'\bvoid\s+fill\s*\((?=\s*T\s+value)'),
-    'NDSize_ctor_fill': member(r'explicit\s+NDSizeBase\s*\((?=\s*size_t\s+rank\s*,\s*T\s+fill_value)', ctor=True, member_calls={'allocate': 'NDSize_allocate', 'fill': 'NDSize_fill'}),
     'DataArray_appendData': dict(file='src/DataArray.cpp', locator=r'void\s+DataArray::appendData\s*\(', cls='DataArrayA', cls_decl='DataArray', cls_file='include/nix/DataArray.hpp',
                                  classes=['NDSize', 'DataArrayA'], member_calls={'dataExtent': 'DataArrayA_dataExtent', 'setData': 'DataArrayA_setData'}, inherited_methods=['setData'],
                                  overloads={'DataArrayA_dataExtent': {0: 'DataArrayA_dataExtent_get', 1: 'DataArrayA_dataExtent_set'}}),
